@@ -23,7 +23,9 @@ pub fn report(k: &str, rows: &[String]) { println!("OBS {{\"k\": {:?}, \"rows\":
 
 
 def key_of(c):
-    return ("G" if c["generic"] else "") + "enum[" + ",".join(
+    fa = sorted(c["formsAttr"])
+    ftag = ("{" + ",".join(fa) + "}") if fa else ""
+    return ("G" if c["generic"] else "") + ftag + "enum[" + ",".join(
         f"{v['k']}({''.join(t.lower() if fi else t for t, fi in zip(v['tys'], v['fign']))}){'!' if v['ign'] else ''}"
         for v in c["vs"]) + "]"
 
@@ -83,8 +85,10 @@ def build(c, key):
                 for j, t in enumerate(tys)) + " }")
             vals.append(f"E::{nm} {{ " + ", ".join(f"{'xy'[j]}: {fv[j]}" for j in range(len(tys))) + " }")
             pats.append(f"E::{nm} {{ " + ", ".join(f"{'xy'[j]}: f{j}" for j in range(len(tys))) + " }")
-    forms = "".join(f"#[{a}(owned, ref, ref_mut)]\n" for a, d in [("unwrap", "Unwrap"), ("try_unwrap", "TryUnwrap"),
-                                                                   ("try_into", "TryInto")] if d in derives)
+    F = set(c["forms"])
+    order = [f for f in ("owned", "ref", "ref_mut") if f in c["formsAttr"]]
+    forms = "".join(f"#[{a}({', '.join(order)})]\n" for a, d in [("unwrap", "Unwrap"), ("try_unwrap", "TryUnwrap"),
+                                                                   ("try_into", "TryInto")] if d in derives) if order else ""
     head = ("#[derive(" + ", ".join("derive_more::" + d for d in derives) + ", Clone, Debug, PartialEq)]\n" + forms +
             f"pub enum E{g} {{ {', '.join(decls)} }}")
     body = [f"let vals: Vec<E{gi}> = vec![{', '.join(vals)}];", "let mut rows: Vec<String> = vec![];"]
@@ -143,6 +147,13 @@ def build(c, key):
                 want_expr = f"match &vals[{a}] {{ {pats[a]} => vec![{addr_f}], _ => vec![] }}" if ok else "Vec::<usize>::new()"
                 body.append(f'rows.push(format!("try_into_ref {a} {tk} {{}}", match <{rt}>::try_from(&vals[{a}]) {{ Ok(r) => {{ let want = {want_expr}; String::from(if vec![{addr_r}] == want {{ "same" }} else {{ "other" }}) }}, Err(e) => String::from(if ad(e.input) == ad(&vals[{a}]) {{ "err_same" }} else {{ "err_changed" }}) }}));' if ok or True else "")
                 exp.append(f"try_into_ref {a} {tk} {'same' if ok else 'err_same'}")
+    # only the listed reference forms exist (no attribute: the owned form)
+    FORM_OF = {"unwrap": "owned", "try_unwrap": "owned", "try_into": "owned", "unwrap_ref": "ref", "try_unwrap_ref": "ref",
+               "try_into_ref": "ref", "unwrap_mut": "ref_mut"}
+    keep = lambda name: FORM_OF.get(name) is None or FORM_OF[name] in F
+    pre = 'rows.push(format!("'
+    body = [b for b in body if not b.startswith(pre) or keep(b[len(pre):].split(" ")[0])]
+    exp = [e for e in exp if keep(e.split(" ")[0])]
     body.append(f"report({json.dumps(key)}, &rows);")
     mod = "use super::*;\nuse core::convert::TryFrom;\n" + head + "\npub fn run() {\n    " + "\n    ".join(body) + "\n}"
     return mod, exp
@@ -160,9 +171,19 @@ def run(chk, tier, seed, replay):
     if replay:
         want = json.load(open(replay))["key"]
         cases = {k: v for k, v in cases.items() if k == want}
+    if not replay:
+        # every form set for 1-variant enums; for larger enums the full list plus one seeded form set per enum
+        def pick(k, c):
+            fa = sorted(c["formsAttr"])
+            if len(c["vs"]) < 2 or len(fa) == 3:
+                return True
+            base = k.split("enum[")[1]
+            opts = [[], ["owned"], ["ref"], ["ref_mut"], ["owned", "ref"], ["owned", "ref_mut"], ["ref", "ref_mut"]]
+            return fa == opts[vlib.seeded_pick(base, seed, len(opts))]
+        cases = {k: c for k, c in cases.items() if pick(k, c)}
     if tier == "thorough" and not replay:
         cases = {k: c for k, c in cases.items() if len(c["vs"]) < 3 or vlib.seeded_pick(k, seed, 3) == 0}
-    chk.cov["exhaustive"] = not replay and tier == "quick"
+    chk.cov["exhaustive"] = False   # reference-form sets are sampled for enums of 2+ variants
     mods, exps = [], {}
     for k, c in cases.items():
         m, e = build(c, k)
